@@ -254,6 +254,15 @@ def run_c06(ctx, cases, ref=False):
         u = c.get("scale", [1.0, 1.0])
         dist["units:x*{:g}".format(u[0])] += 1
         dist["units:y*{:g}".format(u[1])] += 1
+        if c.get("offset") is not None:
+            dist["offset-data:|x|/span=1e{}..".format(int(math.floor(math.log10(c["ratio"]))))] += 1
+            dist["offset-data:" + ("position-is-a-parameter" if c["model"] in (
+                "gaussian", "custom:lpeak") else "user-model-in-(x-x0)")] += 1
+        if c["model"] in G.PRESET_POLY and c.get("parguess") is not None:
+            dist["poly-with-parguess:" + c.get("guess_kind", "list")] += 1
+            dist["poly-with-parguess:" + ("with-xerr" if c["xerr"] is not None else "no-xerr")] += 1
+            if not c.get("degrees_kw", True):
+                dist["poly-with-parguess:default-degree-without-degrees-keyword"] += 1
         if c["xrange"]:
             if c["xrange"][0] in c["x"]:
                 dist["xrange:low-bound-on-a-data-point"] += 1
@@ -317,7 +326,7 @@ def run_c06(ctx, cases, ref=False):
 def result_request(case, o):
     req = {"cmd": "fit.result", "params": [bits(v) for v in o["popt"]],
            "cov": [[bits(v) for v in row] for row in o["cov"]],
-           "xs": [bits(v) for v in case["xs"]], "pts": G.points(case)}
+           "xs": [bits(v) for v in G.eval_points(case)], "pts": G.points(case)}
     req.update(G.driver_model(case))
     return req
 
@@ -350,18 +359,26 @@ def judge_c07(case, o, r):
             return False
         return True
 
-    # fit_function(x): scalars, list, array
-    for form in ("fit", "fit_list", "fit_array"):
+    # fit_function(x): scalars, list, array -- and the same again after the history of the case
+    # (a returned value switched to Monte Carlo, the result drawn on a plot, ...)
+    forms = ["fit", "fit_list", "fit_array"]
+    if "fit@after" in o:
+        forms += ["fit@after", "fit_list@after", "fit_array@after"]
+    hist = " after the history {}".format(case.get("hist")) if case.get("hist") else ""
+    for form in forms:
         ok = True
-        for i, x in enumerate(case["xs"]):
+        hsig = ":after-history" if (form.endswith("@after") or (
+            case.get("hist") and case.get("hist_first"))) else ""
+        for i, x in enumerate(G.eval_points(case)):
             iv, ie = o[form][i]
             mv, me, mq = r["fit"][i]
-            ok = cmp("c07:fit-function-value:" + t,
-                     "fit_function({!r}) [{}] is not the model at the returned parameters".format(
-                         x, form), iv, mv, "fit_function = model at the returned parameters", x=x)
-            ok = ok and cmp("c07:fit-function-error:" + t,
-                            "uncertainty of fit_function({!r}) [{}] is not sqrt(g^T Cov g)".format(
-                                x, form), ie, me, "uncertainty band", x=x)
+            ok = cmp("c07:fit-function-value:" + t + hsig,
+                     "fit_function({!r}) [{}] is not the model at the returned parameters{}".format(
+                         x, form, hist if hsig else ""), iv, mv,
+                     "fit_function = model at the returned parameters", x=x)
+            ok = ok and cmp("c07:fit-function-error:" + t + hsig,
+                            "uncertainty of fit_function({!r}) [{}] is not sqrt(g^T Cov g){}".format(
+                                x, form, hist if hsig else ""), ie, me, "uncertainty band", x=x)
             if ok:
                 q, qb = fb(mq)
                 if math.isfinite(q) and qb <= 1e-6 * abs(q) + 1e-12 * yunit * yunit and not close(
@@ -374,7 +391,8 @@ def judge_c07(case, o, r):
                 break
         if not ok:
             break
-    if o["fit_list_type"] != "list" or o["fit_array_type"] != "ndarray":
+    if o["fit_list_type"] != "list" or o["fit_array_type"] != "ndarray" or o.get(
+            "fit_list_type@after", "list") != "list" or o.get("fit_array_type@after", "ndarray") != "ndarray":
         fails.append(fail("c07:fit-function-container:" + t, "fit_function of a list/array returned "
                           "{}/{}".format(o["fit_list_type"], o["fit_array_type"]), case,
                           clause="evaluation points as lists and arrays"))
@@ -463,6 +481,20 @@ def run_c07(ctx, cases, ref=False):
         u = c.get("scale", [1.0, 1.0])
         dist["units:x*{:g}".format(u[0])] += 1
         dist["units:y*{:g}".format(u[1])] += 1
+        if c.get("offset") is not None:
+            dist["offset-data"] += 1
+        if c["model"] in G.PRESET_POLY and c.get("parguess") is not None:
+            dist["poly-with-parguess"] += 1
+        if c.get("hist"):
+            for st in c["hist"]:
+                dist["history:" + st[0] + (":value-asked-as-" + st[2] if st[0] == "switch" else "")] += 1
+            for lg in o.get("hist_log", []):
+                if lg[0] == "plot":
+                    dist["history:plot:" + lg[1]] += 1
+            dist["history:fit_function-first-evaluated-after-it" if c.get("hist_first") else
+                 "history:fit_function-evaluated-before-and-after"] += 1
+        else:
+            dist["history:none"] += 1
         if "exception" in o and c["sy"] == "yzeros":
             # the library's first pass (sigma = sigma_y, some exactly 0) is not a least-squares
             # problem; when it does not get through the case says nothing
@@ -515,12 +547,16 @@ def closed_form_search(ctx, cases):
         if "exception" in o:
             continue
         tried += 1
-        f = G.ref_fn(c["model"])
+        f = G.ref_fn(c)
         p = o["popt"]
         yunit = max(abs(v) for v in c["y"]) or 1.0
         t = tag(c)
         try:
-            for x, (iv, _) in zip(c["xs"], o["fit"]):
+            pairs = [(x, iv, "") for x, (iv, _) in zip(G.eval_points(c), o["fit"])]
+            for key in ("fit@after", "fit_list@after", "fit_array@after"):
+                pairs += [(x, iv, " [{} the history {}]".format(key, c.get("hist")))
+                          for x, (iv, _) in zip(G.eval_points(c), o.get(key, []))]
+            for x, iv, when in pairs:
                 rv = f(x, *p)
                 scale = sum(abs(v) * abs(x) ** (len(p) - 1 - k) for k, v in enumerate(p)) \
                     if c["model"] in G.PRESET_POLY else abs(rv)
@@ -528,7 +564,7 @@ def closed_form_search(ctx, cases):
                     failures.append(fail(
                         "c07:fit-function-value:" + t,
                         "fit_function({!r}) = {!r}, the model at the returned parameters {} is "
-                        "{!r}".format(x, iv, p, rv), c, impl=iv, expected=rv, oracle="independent",
+                        "{!r}{}".format(x, iv, p, rv, when), c, impl=iv, expected=rv, oracle="independent",
                         kind="violation", clause="fit_function = model at the returned parameters",
                         x=x))
                     break
